@@ -5,8 +5,8 @@
 EXTENDS RingBuffer, Json
 CONSTANT SimDepth
 VARIABLE hist
-SimInit == Init /\ hist = <<>>
+SimInit == Init /\ hist = <<act>>          \* the first entry is the Create call (with the first capacity)
 SimNext == Next /\ hist' = Append(hist, act')
 SimSpec == SimInit /\ [][SimNext]_<<vars, hist>>
-Emit == Len(hist) < SimDepth \/ PrintT(<<"SCEN", ToJson([cap |-> cap, ops |-> hist])>>)
+Emit == Len(hist) < SimDepth \/ PrintT(<<"SCEN", ToJson([cap |-> hist[1].cap, ops |-> Tail(hist)])>>)
 =============================================================================
